@@ -177,7 +177,7 @@ func genC17(tier int) (map[string][]byte, error) {
 }
 
 func init() {
-	register(&CheckDef{ID: "C17", Level: "proof", Gen: genC17, Timeout: [2]int{300, 900},
+	register(&CheckDef{ID: "C17", Level: "proof", Gen: genC17, Timeout: [2]int{600, 900},
 		Assumptions: []string{
 			"fmt.Sprintf with arguments is a stub returning an opaque string: 'returns a string' for %-formatted fallbacks holds by the stub's contract; fmt.Sprintf(s) without arguments and without '%' returns s",
 			"documented names are /verif/spec/enum_names.json (written from the doc comments and the tables they cite)",
